@@ -20,18 +20,6 @@ def Val.pow (a b : Val) : Except Err Val :=
   | .int (.ofNat n) => D.powV a n
   | _ => .error "unsupported-exponent"
 
-def Val.lenV (v : Val) : Except Err Val :=
-  match v with
-  | .str s => .ok (.int s.length)
-  | _ => match v.elems with
-    | some l => .ok (.int l.length)
-    | Option.none => .error "TypeError"
-
-def Val.elemsE (v : Val) : Except Err (List Val) :=
-  match v.elems with
-  | some l => .ok l
-  | Option.none => .error "TypeError"
-
 def Val.sumV (v : Val) : Except Err Val := do
   let l ← v.elemsE
   D.pySum l
